@@ -38,8 +38,17 @@ pub enum Ev {
     Request { kind: ReqKind, path: String, pos: Pos, new_name: Option<String> },
     /// prepareRename → rename → apply the edits to the client's buffers → didChange them back.
     RenameLoop { path: String, pos: Pos, new_name: String },
-    /// Remove the folder, or add it back.
-    Folder { add: bool },
+    /// Remove a workspace folder, or add it back (`b`: the second folder `fb/`).
+    Folder {
+        add: bool,
+        #[serde(default)]
+        b: bool,
+    },
+    /// A module that is not open vanishes from disk behind the server's back (rm, git
+    /// checkout); the server can only notice at its next refresh after a notification.
+    DiskDelete { path: String },
+    /// ...and comes back with the very same content.
+    DiskRestore { path: String },
     Checkpoint,
     /// Semantic checkpoint against `Scenario::sem[target]` ("C17" or "C18").
     Sem { target: usize, mode: String },
@@ -53,6 +62,9 @@ pub struct Scenario {
     pub events: Vec<Ev>,
     #[serde(default)]
     pub sem: Vec<crate::sem::SemTarget>,
+    /// A second, disjoint workspace folder rooted at `fb/` (its files are in `disk` under that prefix).
+    #[serde(default)]
+    pub folder_b: bool,
 }
 
 pub struct World {
@@ -77,6 +89,13 @@ impl World {
         let p = self.root.join(path);
         std::fs::create_dir_all(p.parent().unwrap()).expect("scratch");
         std::fs::write(p, text).expect("scratch");
+    }
+    pub fn folder_b_uri(&self) -> Url {
+        let canon = self.root.canonicalize().expect("scratch root");
+        Url::from_file_path(canon.join("fb")).expect("abs path")
+    }
+    pub fn remove(&self, path: &str) {
+        let _ = std::fs::remove_file(self.root.join(path));
     }
     pub fn folder_uri(&self) -> Url {
         let canon = self.root.canonicalize().expect("scratch root");
@@ -104,6 +123,10 @@ pub struct ClientModel {
     pub disk: BTreeMap<String, String>,
     pub open: BTreeMap<String, (String, i32)>,
     pub folder_present: bool,
+    /// the second folder `fb/` is part of the workspace
+    pub folder_b_present: bool,
+    /// modules deleted behind the server's back, with the content they come back with
+    pub deleted: BTreeMap<String, String>,
 }
 
 impl ClientModel {
@@ -225,7 +248,14 @@ fn to_message(v: Value) -> Option<Message> {
 
 impl<'w> Peer<'w> {
     pub fn new(world: &'w World, with_folder: bool) -> Peer<'w> {
-        let folders = if with_folder { vec![world.folder_uri()] } else { vec![] };
+        Peer::new2(world, with_folder, false)
+    }
+
+    pub fn new2(world: &'w World, with_folder: bool, with_b: bool) -> Peer<'w> {
+        let mut folders = if with_folder { vec![world.folder_uri()] } else { vec![] };
+        if with_b {
+            folders.push(world.folder_b_uri());
+        }
         let real = real_lsp_bin().and_then(|b| crate::realproc::RealProc::spawn(&b, &folders));
         let mut server = Server::new(&folders);
         if real_lsp_bin().is_some() && real.is_none() {
@@ -382,7 +412,7 @@ impl<'w> Peer<'w> {
 
 /// A fresh server handed the client's current texts (open buffers + disk), quiesced.
 pub fn fresh_peer<'w>(world: &'w World, client: &ClientModel) -> Peer<'w> {
-    let mut p = Peer::new(world, client.folder_present);
+    let mut p = Peer::new2(world, client.folder_present, client.folder_b_present);
     for (path, (text, version)) in client.open.iter() {
         p.did_open(path, text, *version);
     }
@@ -408,6 +438,9 @@ pub struct Exec<'w> {
     pub check_drift: bool,
     pub compare_fresh_on_requests: bool,
     pub sem: Vec<crate::sem::SemTarget>,
+    /// the disk changed behind the server's back and no notification has reached it since:
+    /// its view may legitimately lag, so nothing is compared until one has
+    pub external_pending: bool,
 }
 
 fn legal_path(p: &str) -> bool {
@@ -417,14 +450,20 @@ fn legal_path(p: &str) -> bool {
 impl<'w> Exec<'w> {
     pub fn new(world: &'w World, scn: &Scenario) -> Exec<'w> {
         world.reset(&scn.config, &scn.disk);
+        if scn.folder_b {
+            world.write("fb/oal.toml", &scn.config);
+        }
         let client = ClientModel {
             disk: scn.disk.clone(),
             open: BTreeMap::new(),
             folder_present: true,
+            folder_b_present: scn.folder_b,
+            deleted: BTreeMap::new(),
         };
         Exec {
             world,
-            peer: Peer::new(world, true),
+            external_pending: false,
+            peer: Peer::new2(world, true, scn.folder_b),
             client,
             stats: Stats::default(),
             violation: None,
@@ -448,6 +487,10 @@ impl<'w> Exec<'w> {
                 at,
             });
         }
+    }
+
+    fn has_folder_b_files(&self) -> bool {
+        self.client.disk.keys().any(|p| p.starts_with("fb/"))
     }
 
     fn abstract_state(&self) -> u64 {
@@ -536,6 +579,15 @@ impl<'w> Exec<'w> {
     /// texts; published diagnostics and the answers must agree.
     pub fn compare_with_fresh(&mut self, at: usize, reqs: &[(ReqKind, String, Pos, Option<String>)]) {
         if self.violation.is_some() || self.discarded.is_some() || !self.peer.server.alive() {
+            return;
+        }
+        if self.external_pending {
+            self.stats.count("comparison_skipped_external_change_pending", 1);
+            for (kind, path, pos, new_name) in reqs.iter() {
+                if self.client.effective(path).is_some() {
+                    self.peer.send_request(*kind, path, *pos, new_name.as_deref());
+                }
+            }
             return;
         }
         let reqs: Vec<&(ReqKind, String, Pos, Option<String>)> = reqs.iter().filter(|r| self.client.effective(&r.1).is_some()).collect();
@@ -701,19 +753,53 @@ impl<'w> Exec<'w> {
                 self.stats.sim_time_ms += 1000;
                 self.peer.idle();
             }
-            Ev::Folder { add } => {
-                let f = json!({"uri": self.world.folder_uri(), "name": "ws"});
-                if *add && !self.client.folder_present {
-                    self.client.folder_present = true;
+            Ev::Folder { add, b } => {
+                let (uri, present) = if *b { (self.world.folder_b_uri(), self.client.folder_b_present) } else { (self.world.folder_uri(), self.client.folder_present) };
+                let f = json!({"uri": uri, "name": "ws"});
+                if *b && !self.has_folder_b_files() {
+                    sent = false;
+                } else if *add && !present {
+                    if *b {
+                        self.client.folder_b_present = true;
+                    } else {
+                        self.client.folder_present = true;
+                    }
                     self.peer.notify("workspace/didChangeWorkspaceFolders", json!({"event": {"added": [f], "removed": []}}));
-                } else if !*add && self.client.folder_present {
-                    self.client.folder_present = false;
+                } else if !*add && present {
+                    if *b {
+                        self.client.folder_b_present = false;
+                    } else {
+                        self.client.folder_present = false;
+                    }
                     if !self.client.open.is_empty() {
                         self.stats.probe("folder_removed_with_open_docs");
                     }
                     self.peer.notify("workspace/didChangeWorkspaceFolders", json!({"event": {"added": [], "removed": [f]}}));
                 } else {
                     sent = false;
+                }
+            }
+            Ev::DiskDelete { path } => {
+                sent = false;
+                let is_main = path == "main.oal" || path == "fb/main.oal";
+                if !is_main && !self.client.open.contains_key(path) {
+                    if let Some(t) = self.client.disk.remove(path) {
+                        self.client.deleted.insert(path.clone(), t);
+                        self.world.remove(path);
+                        self.external_pending = true;
+                        self.stats.probe("module_deleted_behind_the_server");
+                    }
+                }
+            }
+            Ev::DiskRestore { path } => {
+                sent = false;
+                if !self.client.disk.contains_key(path) {
+                    if let Some(t) = self.client.deleted.remove(path) {
+                        self.world.write(path, &t);
+                        self.client.disk.insert(path.clone(), t);
+                        self.external_pending = true;
+                        self.stats.probe("module_restored_behind_the_server");
+                    }
                 }
             }
             Ev::Request { kind, path, pos, new_name } => {
@@ -759,6 +845,9 @@ impl<'w> Exec<'w> {
                     self.compare_with_fresh(at, &[]);
                 }
             }
+        }
+        if sent && matches!(ev, Ev::Open { .. } | Ev::Change { .. } | Ev::Close { .. } | Ev::Folder { .. }) {
+            self.external_pending = false;
         }
         if sent {
             self.stats.sim_time_ms += 7;
@@ -866,6 +955,8 @@ pub fn ev_name(ev: &Ev) -> &'static str {
         },
         Ev::RenameLoop { .. } => "R",
         Ev::Folder { .. } => "F",
+        Ev::DiskDelete { .. } => "D-",
+        Ev::DiskRestore { .. } => "D+",
         Ev::Checkpoint => "K",
         Ev::Sem { .. } => "M",
     }
@@ -949,10 +1040,15 @@ pub fn probe(scn: &Scenario, k: usize) -> Option<String> {
     crate::hashseed::on_fresh_thread(scn.hash_seed, 256, move || {
         let world = World::new();
         world.reset(&scn2.config, &scn2.disk);
+        if scn2.folder_b {
+            world.write("fb/oal.toml", &scn2.config);
+        }
         let mut client = ClientModel {
             disk: scn2.disk.clone(),
             open: BTreeMap::new(),
             folder_present: true,
+            folder_b_present: scn2.folder_b,
+            deleted: BTreeMap::new(),
         };
         for ev in scn2.events.iter().take(k + 1) {
             match ev {
@@ -977,7 +1073,29 @@ pub fn probe(scn: &Scenario, k: usize) -> Option<String> {
                         }
                     }
                 }
-                Ev::Folder { add } => client.folder_present = *add,
+                Ev::Folder { add, b } => {
+                    if *b {
+                        client.folder_b_present = *add
+                    } else {
+                        client.folder_present = *add
+                    }
+                }
+                Ev::DiskDelete { path } => {
+                    if path != "main.oal" && path != "fb/main.oal" && !client.open.contains_key(path) {
+                        if let Some(t) = client.disk.remove(path) {
+                            client.deleted.insert(path.clone(), t);
+                            world.remove(path);
+                        }
+                    }
+                }
+                Ev::DiskRestore { path } => {
+                    if !client.disk.contains_key(path) {
+                        if let Some(t) = client.deleted.remove(path) {
+                            world.write(path, &t);
+                            client.disk.insert(path.clone(), t);
+                        }
+                    }
+                }
                 _ => {}
             }
         }
